@@ -255,8 +255,9 @@ class SimWorld(object):
                         staticmethod(lambda *a, **kw: self.context))
             self.arbiter = circus.arbiter.Arbiter.load_from_config(
                 config_file, loop=self.ioloop)
-            self.arbiter.check_delay = -1
-            self.arbiter.ctrl.check_delay = -1000
+            cd = -1 if not periodic else periodic
+            self.arbiter.check_delay = cd
+            self.arbiter.ctrl.check_delay = cd * 1000
         else:
             ws = [w if isinstance(w, circus.watcher.Watcher)
                   else circus.watcher.Watcher(**w) for w in watchers]
